@@ -84,95 +84,118 @@ func runC18Probe(rc *runCtx) error {
 		show(label, c, b)
 		return c
 	}
-	// ---- F10a v1 on v2 collection
-	js("create v2 rich", "POST", "/v2/collections", `{"id":"rich","indexSchema":{"vec":{"type":"vectorVamana","vectorVamana":{"vectorSize":2,"distanceMetric":"euclidean","searchSize":75,"degreeBound":64,"alpha":1.2}},"cat":{"type":"string","string":{"caseSensitive":false}},"size":{"type":"integer"},"desc":{"type":"text","text":{"analyser":"standard"}},"labels":{"type":"stringArray","stringArray":{"caseSensitive":true}}}}`)
-	js("v1 list with v2 col", "GET", "/v1/collections", ``)
-	js("v1 get v2 col", "GET", "/v1/collections/rich", ``)
-	js("v1 insert v2 col", "POST", "/v1/collections/rich/points", `{"points":[{"vector":[1,2]}]}`)
-	js("v1 update v2 col", "PUT", "/v1/collections/rich/points", `{"points":[{"id":"6ba7b810-9dad-11d1-80b4-00c04fd430c8","vector":[1,2]}]}`)
-	js("v1 search v2 col", "POST", "/v1/collections/rich/points/search", `{"vector":[1,2]}`)
-	js("v1 delpts v2 col", "DELETE", "/v1/collections/rich/points", `{"ids":["6ba7b810-9dad-11d1-80b4-00c04fd430c8"]}`)
-	// ---- inserts
-	js("insert ok", "POST", "/v2/collections/rich/points", `{"points":[{"_id":"6ba7b810-9dad-11d1-80b4-00c04fd430c8","vec":[1,2],"cat":"a","size":3,"desc":"hello world","labels":["x","y"],"n":{"a":5}},{"_id":"6ba7b810-9dad-11d1-80b4-00c04fd430c9","vec":[2,2],"cat":"b","size":4,"desc":"hello there","labels":["x"],"n":{"a":6}}]}`)
-	js("insert empty string indexed", "POST", "/v2/collections/rich/points", `{"points":[{"vec":[1,2],"cat":""}]}`)
-	js("insert empty text indexed", "POST", "/v2/collections/rich/points", `{"points":[{"vec":[1,2],"desc":""}]}`)
-	js("insert empty label", "POST", "/v2/collections/rich/points", `{"points":[{"vec":[1,2],"labels":[""]}]}`)
-	js("insert empty labels arr", "POST", "/v2/collections/rich/points", `{"points":[{"vec":[1,2],"labels":[]}]}`)
-	js("insert dup existing id (2 pts)", "POST", "/v2/collections/rich/points", `{"points":[{"_id":"6ba7b810-9dad-11d1-80b4-00c04fd430c8","vec":[1,2]},{"vec":[3,2]}]}`)
-	js("insert same id twice", "POST", "/v2/collections/rich/points", `{"points":[{"_id":"7ba7b810-9dad-11d1-80b4-00c04fd430c8","vec":[1,2]},{"_id":"7ba7b810-9dad-11d1-80b4-00c04fd430c8","vec":[3,2]}]}`)
-	js("update same id twice", "PUT", "/v2/collections/rich/points", `{"points":[{"_id":"6ba7b810-9dad-11d1-80b4-00c04fd430c8","vec":[1,2]},{"_id":"6ba7b810-9dad-11d1-80b4-00c04fd430c8","vec":[3,2]}]}`)
-	js("update nonexistent", "PUT", "/v2/collections/rich/points", `{"points":[{"_id":"8ba7b810-9dad-11d1-80b4-00c04fd430c8","vec":[1,2]}]}`)
-	js("delete same id twice", "DELETE", "/v2/collections/rich/points", `{"ids":["8ba7b810-9dad-11d1-80b4-00c04fd430c8","8ba7b810-9dad-11d1-80b4-00c04fd430c8"]}`)
-	// ---- search select / sort
-	q := `"query":{"property":"vec","vectorVamana":{"vector":[1,2],"operator":"near","searchSize":75,"limit":10}}`
-	js("search ok", "POST", "/v2/collections/rich/points/search", `{`+q+`,"limit":10}`)
-	js("search select *", "POST", "/v2/collections/rich/points/search", `{`+q+`,"select":["*"],"limit":10}`)
-	js("search select size.b", "POST", "/v2/collections/rich/points/search", `{`+q+`,"select":["size.b"],"limit":10}`)
-	js("search select labels.x", "POST", "/v2/collections/rich/points/search", `{`+q+`,"select":["labels.x"],"limit":10}`)
-	js("search select labels.0", "POST", "/v2/collections/rich/points/search", `{`+q+`,"select":["labels.0"],"limit":10}`)
-	js("search select labels.7", "POST", "/v2/collections/rich/points/search", `{`+q+`,"select":["labels.7"],"limit":10}`)
-	js("search select n.a, n", "POST", "/v2/collections/rich/points/search", `{`+q+`,"select":["n.a","n"],"limit":10}`)
-	js("search select size, size.x? no: cat then cat.b", "POST", "/v2/collections/rich/points/search", `{`+q+`,"select":["n.a.b"],"limit":10}`)
-	js("search select empty string", "POST", "/v2/collections/rich/points/search", `{`+q+`,"select":[""],"limit":10}`)
-	js("search select n then n.zz", "POST", "/v2/collections/rich/points/search", `{`+q+`,"select":["cat","cat.x"],"limit":10}`)
-	js("search select missing.a then missing", "POST", "/v2/collections/rich/points/search", `{`+q+`,"select":["zz.a","zz"],"limit":10}`)
-	js("search sort size", "POST", "/v2/collections/rich/points/search", `{`+q+`,"sort":[{"property":"size"}],"limit":10}`)
-	js("search sort n (maps)", "POST", "/v2/collections/rich/points/search", `{`+q+`,"select":["n","labels"],"sort":[{"property":"n"},{"property":"labels"}],"limit":10}`)
-	js("search sort size.b", "POST", "/v2/collections/rich/points/search", `{`+q+`,"select":["size"],"sort":[{"property":"size.b"}],"limit":10}`)
-	js("search offset huge", "POST", "/v2/collections/rich/points/search", `{`+q+`,"offset":4611686018427387904,"limit":10}`)
-	js("search offset 1e3", "POST", "/v2/collections/rich/points/search", `{`+q+`,"offset":1000,"limit":10}`)
-	js("search by _id", "POST", "/v2/collections/rich/points/search", `{"query":{"property":"_id","string":{"value":"6ba7b810-9dad-11d1-80b4-00c04fd430c8","operator":"equals"}},"limit":10}`)
-	js("search text", "POST", "/v2/collections/rich/points/search", `{"query":{"property":"desc","text":{"value":"hello","operator":"containsAny","limit":10}},"limit":10}`)
-	js("search text only punctuation", "POST", "/v2/collections/rich/points/search", `{"query":{"property":"desc","text":{"value":"!!!","operator":"containsAll","limit":10}},"limit":10}`)
-	js("search string caseins range", "POST", "/v2/collections/rich/points/search", `{"query":{"property":"cat","string":{"value":"A","operator":"inRange","endValue":"C"}},"limit":10}`)
-	js("search _and empty-filter", "POST", "/v2/collections/rich/points/search", `{"query":{"property":"_and","_and":[{"property":"size","integer":{"value":3,"operator":"equals"}},{"property":"vec","vectorVamana":{"vector":[1,2],"operator":"near","searchSize":75,"limit":10,"filter":{"property":"cat","string":{"value":"zzz","operator":"equals"}}}}]},"limit":10}`)
-	js("search _or with and prop mismatch", "POST", "/v2/collections/rich/points/search", `{"query":{"property":"_or","_and":[{"property":"size","integer":{"value":3,"operator":"equals"}}]},"limit":10}`)
-	js("search weight NaN? via json no", "POST", "/v2/collections/rich/points/search", `{"query":{"property":"vec","vectorVamana":{"vector":[1,2],"operator":"near","searchSize":75,"limit":10,"weight":1e38}},"limit":10}`)
-	// ---- PQ
-	js("create pq nondiv", "POST", "/v2/collections", `{"id":"pqnd","indexSchema":{"vec":{"type":"vectorFlat","vectorFlat":{"vectorSize":5,"distanceMetric":"euclidean","quantizer":{"type":"product","product":{"numCentroids":4,"numSubVectors":2,"triggerThreshold":1000}}}}}}`)
-	js("insert pq nondiv", "POST", "/v2/collections/pqnd/points", `{"points":[{"vec":[1,2,3,4,5]}]}`)
-	js("search pq nondiv", "POST", "/v2/collections/pqnd/points/search", `{"query":{"property":"vec","vectorFlat":{"vector":[1,2,3,4,5],"operator":"near","limit":10}},"limit":10}`)
-	js("create pq hamming", "POST", "/v2/collections", `{"id":"pqham","indexSchema":{"vec":{"type":"vectorFlat","vectorFlat":{"vectorSize":4,"distanceMetric":"hamming","quantizer":{"type":"product","product":{"numCentroids":4,"numSubVectors":2,"triggerThreshold":1000}}}}}}`)
-	js("insert pq hamming", "POST", "/v2/collections/pqham/points", `{"points":[{"vec":[1,2,3,4]}]}`)
-	js("create pq vamana nondiv", "POST", "/v2/collections", `{"id":"pqvnd","indexSchema":{"vec":{"type":"vectorVamana","vectorVamana":{"vectorSize":5,"distanceMetric":"euclidean","searchSize":75,"degreeBound":64,"alpha":1.2,"quantizer":{"type":"product","product":{"numCentroids":4,"numSubVectors":2,"triggerThreshold":1000}}}}}}`)
-	js("insert pq vamana nondiv", "POST", "/v2/collections/pqvnd/points", `{"points":[{"vec":[1,2,3,4,5]}]}`)
-	js("create pq subvec > size", "POST", "/v2/collections", `{"id":"pqbig","indexSchema":{"vec":{"type":"vectorFlat","vectorFlat":{"vectorSize":2,"distanceMetric":"euclidean","quantizer":{"type":"product","product":{"numCentroids":4,"numSubVectors":4,"triggerThreshold":1000}}}}}}`)
-	js("insert pq subvec > size", "POST", "/v2/collections/pqbig/points", `{"points":[{"vec":[1,2]}]}`)
-	js("create bq on euclid (binary quantizer, metric hamming) ", "POST", "/v2/collections", `{"id":"bqeu","indexSchema":{"vec":{"type":"vectorFlat","vectorFlat":{"vectorSize":4,"distanceMetric":"euclidean","quantizer":{"type":"binary","binary":{"threshold":0.5,"triggerThreshold":-5,"distanceMetric":"hamming"}}}}}}`)
-	js("insert bq", "POST", "/v2/collections/bqeu/points", `{"points":[{"vec":[1,2,3,4]}]}`)
-	js("search bq", "POST", "/v2/collections/bqeu/points/search", `{"query":{"property":"vec","vectorFlat":{"vector":[1,2,3,4],"operator":"near","limit":10}},"limit":10}`)
-	js("create haversine vamana", "POST", "/v2/collections", `{"id":"hav","indexSchema":{"vec":{"type":"vectorVamana","vectorVamana":{"vectorSize":2,"distanceMetric":"haversine","searchSize":75,"degreeBound":64,"alpha":1.2}}}}`)
-	js("insert hav", "POST", "/v2/collections/hav/points", `{"points":[{"vec":[100,200]},{"vec":[1,2]}]}`)
-	js("search hav", "POST", "/v2/collections/hav/points/search", `{"query":{"property":"vec","vectorVamana":{"vector":[1,2],"operator":"near","searchSize":75,"limit":10}},"limit":10}`)
-	// ---- reserved names
-	js("create reserved names", "POST", "/v2/collections", `{"id":"resv","indexSchema":{"_id":{"type":"string","string":{"caseSensitive":true}},"_and":{"type":"integer"},"":{"type":"integer"},"a.b":{"type":"integer"},"a":{"type":"integer"}}}`)
-	js("insert reserved", "POST", "/v2/collections/resv/points", `{"points":[{"_and":5,"x":1}]}`)
-	js("insert reserved a int", "POST", "/v2/collections/resv/points", `{"points":[{"a":5}]}`)
-	js("insert reserved a map", "POST", "/v2/collections/resv/points", `{"points":[{"a":{"b":5}}]}`)
-	js("insert reserved none", "POST", "/v2/collections/resv/points", `{"points":[{"zzz":5}]}`)
-	js("get resv", "GET", "/v2/collections/resv", ``)
-	js("create empty-name vec", "POST", "/v2/collections", `{"id":"empn","indexSchema":{"":{"type":"vectorFlat","vectorFlat":{"vectorSize":2,"distanceMetric":"euclidean"}}}}`)
-	js("insert empn", "POST", "/v2/collections/empn/points", `{"points":[{"zzz":5}]}`)
-	js("create star-name", "POST", "/v2/collections", `{"id":"star","indexSchema":{"a.*":{"type":"integer"},"b.0":{"type":"integer"}}}`)
-	js("insert star arr", "POST", "/v2/collections/star/points", `{"points":[{"a":[1,2]}]}`)
-	js("insert star map", "POST", "/v2/collections/star/points", `{"points":[{"a":{"*":2}, "b":{"0":3}}]}`)
-	js("create slash-name", "POST", "/v2/collections", `{"id":"slash","indexSchema":{"a/b":{"type":"integer"}}}`)
-	js("insert slash", "POST", "/v2/collections/slash/points", `{"points":[{"a/b":2}]}`)
-	// ---- msgpack NaN
-	mp("mp create alpha NaN", "POST", "/v2/collections", map[string]any{"id": "anan", "indexSchema": map[string]any{"vec": map[string]any{"type": "vectorVamana", "vectorVamana": map[string]any{"vectorSize": 2, "distanceMetric": "euclidean", "searchSize": 75, "degreeBound": 64, "alpha": float32(math.NaN())}}}})
-	js("get anan", "GET", "/v2/collections/anan", ``)
-	js("insert anan", "POST", "/v2/collections/anan/points", `{"points":[{"vec":[1,2]},{"vec":[1,3]}]}`)
-	mp("mp insert NaN non-indexed field", "POST", "/v2/collections/rich/points", map[string]any{"points": []any{map[string]any{"vec": []float32{5, 5}, "other": math.NaN()}}})
-	js("search select other", "POST", "/v2/collections/rich/points/search", `{`+q+`,"select":["other"],"limit":10}`)
-	js("search no select", "POST", "/v2/collections/rich/points/search", `{`+q+`,"limit":10}`)
-	mp("mp insert int8", "POST", "/v2/collections/rich/points", map[string]any{"points": []any{map[string]any{"vec": []float32{5, 6}, "size": 5}}})
-	mp("mp insert uint64", "POST", "/v2/collections/rich/points", map[string]any{"points": []any{map[string]any{"vec": []float32{5, 6}, "size": uint64(1 << 63)}}})
-	mp("mp insert f64 vec", "POST", "/v2/collections/rich/points", map[string]any{"points": []any{map[string]any{"vec": []float64{5, 6}}}})
-	js("search float index NaN", "POST", "/v2/collections/rich/points/search", `{"query":{"property":"size","integer":{"value":1e30,"operator":"equals"}},"limit":10}`)
-	js("insert size 1e30", "POST", "/v2/collections/rich/points", `{"points":[{"vec":[1,2],"size":1e30}]}`)
-	js("insert size 1.5", "POST", "/v2/collections/rich/points", `{"points":[{"vec":[1,2],"size":1.5}]}`)
-	js("deep nesting 200", "POST", "/v2/collections/rich/points/search", `{"query":`+strings.Repeat(`{"property":"_and","_and":[`, 200)+`{"property":"size","integer":{"value":3,"operator":"equals"}}`+strings.Repeat(`]}`, 200)+`,"limit":10}`)
-	js("deep nesting 20000", "POST", "/v2/collections/rich/points/search", `{"query":`+strings.Repeat(`{"property":"_and","_and":[`, 20000)+`{"property":"size","integer":{"value":3,"operator":"equals"}}`+strings.Repeat(`]}`, 20000)+`,"limit":10}`)
-	js("offset maxint", "POST", "/v2/collections/rich/points/search", `{`+q+`,"offset":9223372036854775807,"limit":10}`)
+
+	_ = js
+	fl := func(n int, f func(i int) float32) []float32 {
+		v := make([]float32, n)
+		for i := range v {
+			v[i] = f(i)
+		}
+		return v
+	}
+	_ = fl
+	which := os.Getenv("C18P")
+	switch which {
+	case "pq":
+		js("create pq hamming", "POST", "/v2/collections", `{"id":"pqham","indexSchema":{"vec":{"type":"vectorFlat","vectorFlat":{"vectorSize":4,"distanceMetric":"hamming","quantizer":{"type":"product","product":{"numCentroids":4,"numSubVectors":2,"triggerThreshold":1000}}}}}}`)
+		js("create pq hav", "POST", "/v2/collections", `{"id":"pqhav","indexSchema":{"vec":{"type":"vectorVamana","vectorVamana":{"vectorSize":2,"distanceMetric":"haversine","searchSize":75,"degreeBound":64,"alpha":1.2,"quantizer":{"type":"product","product":{"numCentroids":4,"numSubVectors":2,"triggerThreshold":1000}}}}}}`)
+		js("create bq trig", "POST", "/v2/collections", `{"id":"bqtr","indexSchema":{"vec":{"type":"vectorFlat","vectorFlat":{"vectorSize":4,"distanceMetric":"euclidean","quantizer":{"type":"binary","binary":{"triggerThreshold":0,"distanceMetric":"jaccard"}}}}}}`)
+		for _, col := range []string{"pqham", "pqhav", "bqtr"} {
+			for b := 0; b < 3; b++ {
+				pts := []any{}
+				for i := 0; i < 500; i++ {
+					d := 4
+					if col == "pqhav" {
+						d = 2
+					}
+					pts = append(pts, map[string]any{"vec": fl(d, func(j int) float32 { return float32((i*7+j*3+b)%11) })})
+				}
+				mp("insert 500 "+col, "POST", "/v2/collections/"+col+"/points", map[string]any{"points": pts})
+			}
+			d := 4
+			if col == "pqhav" {
+				d = 2
+			}
+			ty := "vectorFlat"
+			opts := map[string]any{"vector": fl(d, func(j int) float32 { return 1 }), "operator": "near", "limit": 5}
+			if col == "pqhav" {
+				ty = "vectorVamana"
+				opts["searchSize"] = 75
+			}
+			mp("search "+col, "POST", "/v2/collections/"+col+"/points/search", map[string]any{"query": map[string]any{"property": "vec", ty: opts}, "limit": 5})
+		}
+	case "v1":
+		js("v1 create", "POST", "/v1/collections", `{"id":"vone","vectorSize":2,"distanceMetric":"cosine"}`)
+		js("v1 create big", "POST", "/v1/collections", `{"id":"vbig","vectorSize":3000,"distanceMetric":"dot"}`)
+		js("v1 list", "GET", "/v1/collections", ``)
+		js("v1 get", "GET", "/v1/collections/vone", ``)
+		js("v1 insert", "POST", "/v1/collections/vone/points", `{"points":[{"vector":[1,2],"metadata":{"a":1}},{"vector":[0,0]}]}`)
+		js("v1 search", "POST", "/v1/collections/vone/points/search", `{"vector":[1,2]}`)
+		js("v1 search zero", "POST", "/v1/collections/vone/points/search", `{"vector":[0,0]}`)
+		mp("v1 insert metadata NaN", "POST", "/v1/collections/vone/points", map[string]any{"points": []any{map[string]any{"vector": []float32{3, 4}, "metadata": math.NaN()}}})
+		js("v1 search after NaN md", "POST", "/v1/collections/vone/points/search", `{"vector":[1,2]}`)
+		js("v2 search on v1 col", "POST", "/v2/collections/vone/points/search", `{"query":{"property":"vector","vectorVamana":{"vector":[1,2],"operator":"near","searchSize":75,"limit":10}},"limit":10}`)
+		js("v2 insert null point", "POST", "/v2/collections/vone/points", `{"points":[null]}`)
+		js("v2 search select * after null", "POST", "/v2/collections/vone/points/search", `{"query":{"property":"vector","vectorVamana":{"vector":[1,2],"operator":"near","searchSize":75,"limit":10}},"select":["*"],"limit":10}`)
+		js("v2 search null query", "POST", "/v2/collections/vone/points/search", `{"query":null,"limit":10}`)
+		js("v2 search null", "POST", "/v2/collections/vone/points/search", `null`)
+		js("v2 insert null", "POST", "/v2/collections/vone/points", `null`)
+		js("v2 create null schema", "POST", "/v2/collections", `{"id":"nulls","indexSchema":null}`)
+		js("v2 create null schema value", "POST", "/v2/collections", `{"id":"nullv","indexSchema":{"a":null}}`)
+		js("v2 create no schema", "POST", "/v2/collections", `{"id":"nosch"}`)
+		js("v2 insert nosch", "POST", "/v2/collections/nosch/points", `{"points":[{"a":1}]}`)
+		js("v2 search nosch by id", "POST", "/v2/collections/nosch/points/search", `{"query":{"property":"_id","stringArray":{"value":["6ba7b810-9dad-11d1-80b4-00c04fd430c8"],"operator":"containsAny"}},"limit":10}`)
+		js("wrong method", "PATCH", "/v2/collections", ``)
+		js("unknown path", "GET", "/v3/collections", ``)
+		js("ping", "GET", "/v2/ping", ``)
+		js("short id", "GET", "/v2/collections/ab", ``)
+		c, b := do("POST", "/v2/collections", "application/json; charset=utf-8", []byte(`{"id":"abc"}`))
+		show("ct charset", c, b)
+	case "deep":
+		n := 8 << 20
+		if s := os.Getenv("C18N"); s != "" {
+			fmt.Sscan(s, &n)
+		}
+		body := []byte{0x81, 0xa6, 'p', 'o', 'i', 'n', 't', 's', 0x91, 0x81, 0xa1, 'x'}
+		body = append(body, bytes.Repeat([]byte{0x91}, n)...)
+		body = append(body, 0xc0)
+		js("create", "POST", "/v2/collections", `{"id":"deep","indexSchema":{}}`)
+		c, b := do("POST", "/v2/collections/deep/points", "application/msgpack", body)
+		show("deep msgpack", c, b)
+	case "deepq":
+		n := 100000
+		if s := os.Getenv("C18N"); s != "" {
+			fmt.Sscan(s, &n)
+		}
+		js("create", "POST", "/v2/collections", `{"id":"deep","indexSchema":{"size":{"type":"integer"}}}`)
+		js("ins", "POST", "/v2/collections/deep/points", `{"points":[{"size":1}]}`)
+		var q any = map[string]any{"property": "size", "integer": map[string]any{"value": int64(1), "operator": "equals"}}
+		for i := 0; i < n; i++ {
+			q = map[string]any{"property": "_and", "_and": []any{q}}
+		}
+		_ = q
+		// build bytes directly to avoid recursion in the encoder
+		var buf bytes.Buffer
+		for i := 0; i < n; i++ {
+			buf.Write([]byte{0x82, 0xa8})
+			buf.WriteString("property")
+			buf.Write([]byte{0xa4})
+			buf.WriteString("_and")
+			buf.Write([]byte{0xa4})
+			buf.WriteString("_and")
+			buf.Write([]byte{0x91})
+		}
+		leaf, _ := msgpack.Marshal(map[string]any{"property": "size", "integer": map[string]any{"value": int64(1), "operator": "equals"}})
+		buf.Write(leaf)
+		var body bytes.Buffer
+		body.Write([]byte{0x82, 0xa5})
+		body.WriteString("query")
+		body.Write(buf.Bytes())
+		body.Write([]byte{0xa5})
+		body.WriteString("limit")
+		body.Write([]byte{10})
+		c, b := do("POST", "/v2/collections/deep/points/search", "application/msgpack", body.Bytes())
+		show("deep query msgpack", c, b)
+	}
 	return nil
 }
